@@ -27,7 +27,7 @@ LEVEL_NOTE = ('Trusted: native/c36_driver.c, CPython 3.12 GIL build; zombie thre
               'when a new foreign thread makes its first callback, so the leak check forces one.')
 ASSUMPTIONS = ['GIL build of CPython 3.12', 'order enforced at call/exit granularity']
 BUDGET = {'quick': 160, 'thorough': 12000}
-TIME = {'quick': 35, 'thorough': 1500}
+TIME = {'quick': 35, 'thorough': 900}
 MIN_PER_SHARD = 20
 MAX_SHARDS = 8
 
